@@ -224,14 +224,26 @@ def run(R) -> None:
     )
     R.rule('C05.R1', lambda: r1_solve_loop(R))
     R.rule('C05.R2', lambda: r2_iter_periods(R))
-    R.rule('C05.R3', lambda: r3_validation_first(R))
+    R.rule('C05.R3', lambda: (r3_validation_first(R), r3b_single_position(R)))
     R.rule('C05.R4', lambda: r4_containment(R))
     R.rule('C05.R5', lambda: r5_position_type(R))
 
 
+def r3b_single_position(R) -> None:
+    """A label that is unknown or does not resolve to a single position raises KeyError (C10.R3 owns the detail)."""
+    from rules import c10
+    c10.r3_keyerror_discipline(R)
+
+
 def r4_containment(R) -> None:
-    from rules import c04
+    """Earlier periods keep their state (only position t is written: C04.R1) and
+    the failing period carries the status its policy prescribes (C06.R2/R4)."""
+    from rules import c04, c06
+    from rules.solver_common import SolverShape
     c04.r1_index_discipline(R)
+    sh = SolverShape(R.repo, c06.Q)
+    c06.r4_exception_discipline(R, sh)
+    c06.r2_policy_table(R, sh)
 
 
 def run_thorough(R) -> None:
